@@ -733,7 +733,7 @@ def _uf1(name):
                 return core.uf(name, c)
             import math
             return {"EXP": math.exp, "LOG": math.log, "SQRT": math.sqrt, "SIN": math.sin,
-                    "COS": math.cos}[name](c)
+                    "COS": math.cos, "TAN": math.tan}[name](c)
         return _map(x, cell, _F8)
     return f
 
@@ -745,6 +745,9 @@ cos = _uf1("COS")
 
 
 def absolute(x):
+    if hasattr(x, "_symq_value") and not isinstance(x, SymArray):
+        return x.__abs__()
+
     def cell(c):
         if isinstance(c, SN):
             return c.__abs__()
@@ -1082,6 +1085,282 @@ def shape(x):
 
 def allclose(*a, **k):
     raise UnsupportedByShim("allclose")
+
+
+# -- a wider slice of the numpy API (thin wrappers over the primitives above) ------------------
+
+def _as(x):
+    if hasattr(x, "_symq_value") and not isinstance(x, SymArray):
+        return x._symq_value()
+    return x if isinstance(x, SymArray) else SymArray(_obj(x))
+
+
+def _binary(f):
+    def g(a, b):
+        if isinstance(a, SymArray) or isinstance(b, SymArray) or isinstance(a, (list, tuple, _np.ndarray)) or isinstance(b, (list, tuple, _np.ndarray)):
+            return f(_as(a) if not isinstance(b, SymArray) or isinstance(a, (list, tuple, _np.ndarray, SymArray)) else a, b)
+        return f(a, b)
+    return g
+
+
+mod = _binary(lambda a, b: a % b)
+remainder = mod
+add = _binary(lambda a, b: a + b)
+subtract = _binary(lambda a, b: a - b)
+multiply = _binary(lambda a, b: a * b)
+divide = _binary(lambda a, b: a / b)
+true_divide = divide
+power = _binary(lambda a, b: a ** b)
+greater = _binary(lambda a, b: a > b)
+greater_equal = _binary(lambda a, b: a >= b)
+less = _binary(lambda a, b: a < b)
+less_equal = _binary(lambda a, b: a <= b)
+equal = _binary(lambda a, b: a == b)
+not_equal = _binary(lambda a, b: a != b)
+logical_and = _binary(lambda a, b: a & b)
+logical_or = _binary(lambda a, b: a | b)
+
+
+def logical_not(a):
+    return ~_as(a)
+
+
+def negative(a):
+    return -_as(a) if not is_sym(a) else -a
+
+
+fabs = absolute
+
+
+def square(a):
+    return a * a
+
+
+def sign(x):
+    def cell(c):
+        if is_sym(c):
+            return ite(c > 0, 1, ite(c < 0, -1, 0))
+        return (c > 0) - (c < 0)
+    return _map(x, cell)
+
+
+def maximum(a, b):
+    return where(_as(a) >= b, a, b) if not (is_sym(a) and is_sym(b)) else core.sym_max([a, b])
+
+
+def minimum(a, b):
+    return where(_as(a) <= b, a, b) if not (is_sym(a) and is_sym(b)) else core.sym_min([a, b])
+
+
+def clip(x, lo, hi):
+    return minimum(maximum(x, lo), hi)
+
+
+def floor(x):
+    def cell(c):
+        if is_sym(c):
+            e = lift(c)
+            return c if c.is_int() else SN(core.z3.ToReal(core.z3.ToInt(e)))
+        import math
+        return float(math.floor(c))
+    return _map(x, cell, _F8)
+
+
+def ceil(x):
+    return -floor(-(_as(x) if not is_sym(x) else x))
+
+
+def diff(x, n=1):
+    x = _as(x)
+    if n != 1 or x.a.ndim != 1:
+        raise UnsupportedByShim("diff beyond 1-D first differences")
+    return x[1:] - x[:-1]
+
+
+def cumsum(x, axis=None):
+    x = _as(x)
+    if x.a.ndim != 1:
+        raise UnsupportedByShim("cumsum of ndim != 1")
+    out, acc = [], 0
+    for c in x.a:
+        c = c._as_int() if isinstance(c, SB) else (int(c) if isinstance(c, (bool, _np.bool_)) else c)
+        acc = c + acc if is_sym(c) and not is_sym(acc) else acc + c
+        out.append(acc)
+    return SymArray(_obj(out))
+
+
+def prod(x, axis=None):
+    def f(cells):
+        p = 1
+        for c in cells:
+            p = c * p if is_sym(c) and not is_sym(p) else p * c
+        return p
+    return _reduce(x, axis, f)
+
+
+def var(x, axis=None):
+    def f(c):
+        m_ = core.sym_sum(c) / len(c)
+        return core.sym_sum([(ci - m_) * (ci - m_) for ci in c]) / len(c)
+    if hasattr(x, "_symq_reduce"):
+        raise UnsupportedByShim("var of a Quantity")
+    return _reduce(x, axis, f, _F8)
+
+
+def median(x, axis=None):
+    x = _as(x)
+    if x.a.ndim != 1:
+        raise UnsupportedByShim("median of ndim != 1")
+    s_ = sort(x)
+    n = len(s_)
+    if n == 0:
+        raise ValueError("median of empty array")
+    return s_.a[n // 2] if n % 2 else (s_.a[n // 2 - 1] + s_.a[n // 2]) / 2
+
+
+def count_nonzero(x, axis=None):
+    x = _as(x)
+    return sum(x.astype(bool) if x.dtype != _B1 else x, axis)
+
+
+def flatnonzero(x):
+    return where(_as(x).ravel())[0]
+
+
+def take(x, idx, axis=None):
+    if axis not in (None, 0):
+        raise UnsupportedByShim("take along axis != 0")
+    return _as(x)[idx]
+
+
+def copy(x):
+    return _as(x).copy()
+
+
+def ravel(x):
+    return _as(x).ravel()
+
+
+def reshape(x, shp):
+    return _as(x).reshape(shp)
+
+
+def transpose(x, *ax):
+    return _as(x).transpose(*ax)
+
+
+def flip(x, axis=None):
+    x = _as(x)
+    return SymArray(_np.flip(x.a, axis), x.dtype)
+
+
+def roll(x, shift, axis=None):
+    x = _as(x)
+    return SymArray(_np.roll(x.a, int(shift), axis), x.dtype)
+
+
+def repeat(x, n, axis=None):
+    x = _as(x)
+    return SymArray(_np.repeat(x.a, int(n) if not isinstance(n, SymArray) else [int(c) for c in n.a], axis), x.dtype)
+
+
+def tile(x, reps):
+    x = _as(x)
+    return SymArray(_np.tile(x.a, reps), x.dtype)
+
+
+def append(x, v, axis=None):
+    return concatenate((_as(x).ravel() if axis is None else x, _as(v).ravel() if axis is None else v), axis=0 if axis is None else axis)
+
+
+def column_stack(seq):
+    arrs = _arrs(seq)
+    return SymArray(_np.column_stack([a.a for a in arrs]), _join_dtype(arrs))
+
+
+def expand_dims(x, axis):
+    x = _as(x)
+    return SymArray(_np.expand_dims(x.a, axis), x.dtype)
+
+
+def full_like(x, v, dtype=None):
+    return full(_obj(x).shape, v, dtype)
+
+
+def ones_like(x, dtype=None):
+    return ones(_obj(x).shape, dtype or getattr(x, "dtype", float))
+
+
+def empty_like(x, dtype=None):
+    return zeros(_obj(x).shape, dtype or getattr(x, "dtype", float))
+
+
+def isin(x, test):
+    x = _as(x)
+    tv = list(_as(test).a.flat)
+
+    def cell(c):
+        r = False
+        for t_ in tv:
+            e = _cmp(c, t_, "==")
+            r = _or(r, e)
+        return r
+    return _map(x, cell, _B1)
+
+
+def array_equal(a, b):
+    a, b = _as(a), _as(b)
+    if a.a.shape != b.a.shape:
+        return False
+    return all(a == b)
+
+
+def outer(a, b):
+    a, b = _as(a), _as(b)
+    out = _np.empty((a.a.size, b.a.size), dtype=object)
+    for i, x in enumerate(a.a.flat):
+        for j, y in enumerate(b.a.flat):
+            out[i, j] = x * y
+    return SymArray(out, _F8)
+
+
+def trace(x):
+    x = _as(x)
+    return core.sym_sum([x.a[i, i] for i in builtins.range(builtins.min(x.a.shape))])
+
+
+def nanmax(x, axis=None):
+    return amax(x, axis)
+
+
+def nanmin(x, axis=None):
+    return amin(x, axis)
+
+
+def ndim(x):
+    return _obj(x).ndim
+
+
+def size(x):
+    return _obj(x).size
+
+
+def iterable(x):
+    return isinstance(x, (SymArray, list, tuple, _np.ndarray))
+
+
+
+
+def arctan2(y, x):
+    return _map2(y, x, lambda a, b: core.uf("ARCTAN2", a, b))
+
+
+def _map2(a, b, f):
+    return _as(a)._binop(b, f, _F8) if isinstance(a, (SymArray, list, tuple, _np.ndarray)) else (_as(b)._binop(a, lambda q, p: f(p, q), _F8) if isinstance(b, (SymArray, list, tuple, _np.ndarray)) else f(a, b))
+
+
+def log10(x):
+    return _map(x, lambda c: core.uf("LOG", c) / core.uf("LOG", 10) if is_sym(c) else __import__("math").log10(c), _F8)
 
 
 def __getattr__(name):
